@@ -36,7 +36,10 @@ def gen_signature(rng):
         k = rng.randint(0 if rng.random() < 0.1 else 1, min(3, nidx))
         inputs.append(rng.sample(names, k))
     used = [n for n in names if any(n in i for i in inputs)]
-    out = [n for n in used if rng.random() < 0.45]
+    if rng.random() < 0.25:
+        out = list(used)                    # nothing summed out: the equation-reduction path
+    else:
+        out = [n for n in used if rng.random() < 0.45]
     rng.shuffle(out)
     return {n: types[n] for n in used}, inputs, out
 
@@ -46,13 +49,21 @@ def carrier_pattern(rng, kind, types, start_id, allow_inf=True):
     d = rng.choice([ZERO[kind]] * 4 + [ONE[kind], rng.choice(vals)])
     st = PT.gen_pattern(rng, types, default=d, start_id=start_id)
     st['ph'] = [rng.choice(vals) for _ in st['ph']]
-    if st['ps'] and rng.random() < 0.25 and st['ps'][0]['n'] > 0:
-        # constant along the first physical axis: built as a stride-0 expanded view
-        inner = 1
-        for p in st['ps'][1:]:
-            inner *= p['n']
-        st['ph'] = [st['ph'][k % inner] for k in range(len(st['ph']))] if inner else st['ph']
-        st['expand0'] = True
+    if st['ps'] and rng.random() < 0.4 and all(p['n'] > 0 for p in st['ps']):
+        # constant along a random non-empty subset E of the physical axes: built as a stride-0 expanded view
+        import itertools
+        nps = len(st['ps'])
+        E = [k for k in range(nps) if rng.random() < 0.6] or [0]
+        sizes = [p['n'] for p in st['ps']]
+        newph = []
+        for q in itertools.product(*[range(n) for n in sizes]):
+            q0 = [0 if k in E else q[k] for k in range(nps)]
+            flat = 0
+            for n_, x in zip(sizes, q0):
+                flat = flat * n_ + x
+            newph.append(st['ph'][flat])
+        st['ph'] = newph
+        st['expandE'] = E
     return st
 
 
@@ -60,9 +71,10 @@ def build_real(st, kind, dtype):
     import torch
     real = {'ps': st['ps'], 'vs': st['vs'], 'd': AG._to_float(st['d'], kind), 'ph': [AG._to_float(v, kind) for v in st['ph']]}
     p = PT.build(real, torch.bool if kind == 'bool' else dtype, 'contig')
-    if st.get('expand0') and p.physical.ndim >= 1 and p.physical.shape[0] > 0 and len(p.paxes) == len(st['ps']):
+    if st.get('expandE') is not None and len(p.paxes) == len(st['ps']) and p.physical.ndim == len(st['ps']):
         from fggs.indices import PatternedTensor
-        ph = p.physical[0:1].expand(p.physical.shape)      # stride 0 along the first axis
+        idx = tuple(slice(0, 1) if k in st['expandE'] else slice(None) for k in range(p.physical.ndim))
+        ph = p.physical[idx].expand(p.physical.shape)      # stride 0 along the axes in E
         p = PatternedTensor(ph, p.paxes, p.vaxes, p.default)
     return p
 
